@@ -42,7 +42,7 @@ AXES = [
     ('attrs', ['none', '1d', '2d', 'wronglen']),
     ('content', ['finite', 'nan_amp', 'inf_wm', 'nan_similar', 'nan_template', 'nan_features']),
     ('monotone', [True, False]),
-    ('channel_map', ['identity', 'perm', 'sub']),
+    ('channel_map', ['identity', 'perm', 'sub', 'sub_high']),
     ('sample_rate', [100.0, 25000.0]),   # 7 / 25000 * 25000 truncates to 6: rounding matters
 ]
 AXDICT = dict(AXES)
